@@ -62,7 +62,13 @@ func (r mapReflect) Has(key string) bool {
 }
 
 func (r mapReflect) Set(key string, val Value) {
-	r.Value.SetMapIndex(r.toMapKey(key), reflect.ValueOf(val.Unstructured()))
+	newVal := reflect.ValueOf(val.Unstructured())
+	if !newVal.IsValid() {
+		// a null value: SetMapIndex would delete the key for the zero reflect.Value,
+		// store the zero value of the element type (nil for interfaces and pointers) instead.
+		newVal = reflect.Zero(r.Value.Type().Elem())
+	}
+	r.Value.SetMapIndex(r.toMapKey(key), newVal)
 }
 
 func (r mapReflect) Delete(key string) {
